@@ -237,6 +237,25 @@ pub fn projset(p: PsParams) -> impl Strategy<Value = ProjSet> {
                             deps.push(r);
                         }
                     }
+                    // "twin" reference: the same target name in another project as well, so that one
+                    // target depends on two homonyms (one in two targets that have a dependency and a homonym in an earlier project)
+                    if mut_t % 2 == 0 {
+                        if let Some(first) = deps.first().cloned() {
+                            for d in 0..i {
+                                if names[d].is_some()
+                                    && names[d] != first.project
+                                    && Some(&names[d]) != Some(&names[i]).filter(|_| first.project.is_none())
+                                    && tnames[d].iter().any(|t| t.0 == first.target)
+                                {
+                                    let twin = PRef { project: names[d].clone(), target: first.target.clone() };
+                                    if !deps.contains(&twin) {
+                                        deps.push(twin);
+                                    }
+                                    break;
+                                }
+                            }
+                        }
+                    }
                     let mutation = if defect(*mut_t, 238) {
                         match mut_t % 6 {
                             0 => SchemaMut::UnknownTargetKey,
